@@ -169,7 +169,7 @@ def drive(SQRA, sysd, form, cls=None, sample=False):
         Qd = np.asarray(Q.todense())
         if sysd["n"] % 2 == 0:
             # history: the SAME object (same loaded matrices) is asked again with other parameters and then with the first ones
-            obj.get_rate_matrix(2.5 * D, 0.8 * T)
+            obj.get_rate_matrix(2.5 * D, 1.25 * T)   # never colder than T: the capped exponent must stay below the overflow limit
             Qr = np.asarray(obj.get_rate_matrix(D, T).todense())
             REC.check("C01.repeatable_on_one_object", np.array_equal(Qr, Qd), {"n": sysd["n"], "form": form})
         dE = E[sysd["rows"]] - E[sysd["cols"]]
